@@ -171,6 +171,20 @@ class Run:
                 names = re.findall(r"^\s*([\w.]+)\s*:", chunks[i + 1], re.M)
                 verdicts.append(names)
             i += 2
+        if len(verdicts) < len(thms):
+            # make found the target up to date (someone else built it meanwhile): compile the
+            # property file directly so that the Print Assumptions output is produced
+            r2 = sh(["timeout", "1800", "coqc", "-Q", ".", "Verif", "-w", "-notation-overridden", pf], cwd=COQ)
+            if r2.returncode == 0:
+                chunks = re.split(r"(Closed under the global context|Axioms:)", r2.stdout)
+                verdicts = []
+                i = 1
+                while i < len(chunks):
+                    if chunks[i].startswith("Closed"):
+                        verdicts.append([])
+                    else:
+                        verdicts.append(re.findall(r"^\s*([\w.]+)\s*:", chunks[i + 1], re.M))
+                    i += 2
         n_pa = len(re.findall(r"Print Assumptions", body))
         if n_pa < len(thms) or len(verdicts) < len(thms):
             self.failures.append({"kind": "proof", "what": "not every theorem in %s has a Print Assumptions verdict (%d theorems, %d verdicts)" % (pf, len(thms), len(verdicts)), "broken": pf})
